@@ -13,6 +13,7 @@ import Proofs.DmrParse
 import Proofs.DmrServer
 import Proofs.DmrDemo
 import Proofs.DmrLookup
+import Proofs.DmrQuote
 namespace Pydap.C11
 open Pydap Pydap.Dmr
 
@@ -61,16 +62,27 @@ theorem C11_uint_attr_typed :
 
 /-- **Whole document**: for every abstract spec — groups nested to any depth, declarations in any order
     (dimensions, variables, attributes and groups interleaved), dimensions declared at any level, the same short
-    name in different groups — whose declarations are locally well formed (`Spec.ok`: plain names, variable tags,
-    attribute values matching their type, distinct attribute names per variable), whose `Dim` references name
-    declared dimensions, and in which no two variables and no two dimensions share a fully qualified name:
-    parsing the independently rendered document yields exactly one record per declared variable, in document
-    order, keyed by its group path, with the declared type, the shape resolved through the declarations the
-    `Dim`s name, the fully qualified dimension names, the maps and the attributes (`expectVars`). -/
+    name in different groups — whose declarations are locally well formed (`Spec.ok`: names of variables and
+    groups are **any non-empty byte strings without `/` that do not start with `dap4`** — blanks, brackets, `.`,
+    `&`, `%`, non-ASCII (as UTF-8 bytes) included; dimension names any non-empty string without `/`; variable
+    tags, attribute values matching their type, distinct attribute names per variable), whose `Dim` references
+    name declared dimensions, and in which no two variables share a key (quoted group path + declared name) and
+    no two dimensions a fully qualified name: parsing the independently rendered document yields exactly one
+    record per declared variable, in document order, filed under its **quoted** group path (`_quote` = C12's
+    `Quote.quote`, `quoteName`) and its declared name, with the declared type, the shape resolved through the
+    declarations the `Dim`s name (looked up under their declared, unquoted names), the fully qualified dimension
+    names, the maps and the attributes (`expectVars`). -/
 theorem C11_parse (pre : List (Str × Str)) (name : Str) (s : Spec)
     (hok : s.ok) (hres : refsResolve s) (hv : distinctVars s) (hd : distinctDims s) :
     parseVars (renderRoot pre name s) = .ok (expectVars s) :=
   parseVars_render pre name s hok hres hv hd
+
+/-- the parser's `_quote` is C12's model; on the names of the domain it is the bytewise map `qn` (C12's `encB`
+    per byte), which keeps `/`, never produces one, and is idempotent (`C12_quote_idempotent`) -/
+theorem C11_quote_is_C12 (n : Str) :
+    quoteName n = ofQ (Pydap.Quote.quote (toQ n)) ∧ quoteName (quoteName n) = quoteName n ∧
+    (goodName n → quoteName n = qn n ∧ quoteName n ≠ [] ∧ '/' ∉ quoteName n) :=
+  ⟨rfl, quoteName_idem n, fun h => ⟨goodName_quote h, (goodName_qseg h).1.1, (goodName_qseg h).1.2⟩⟩
 
 /-- numpy kind, `str(dtype)` and the parser's dtype string for the ten numeric types -/
 def numericDtypes : List (Char × String × String) :=
@@ -85,14 +97,53 @@ theorem C11_server_types :
       dap4ToNumpy (dmrTypeTag d.1 d.2.1.toList) = some d.2.2.toList := by decide
 
 /-- **Addressable by group path**: on the dataset `dmr_to_dataset` assembles from the document (groups created
-    first in `get_groups` order, then the variables stored under their keys) every declared variable is found
-    by following its group path and its name, and what is found is that variable's record — same short names in
-    different groups, variables declared before, between or after sibling groups included. -/
+    first in `get_groups` order under `_quote(fqname)`, then the variables stored under `_quote(key)`) every
+    declared variable is found by following its stored path (`nodePath`: quoted group names, quoted name), and
+    what is found is that variable's record — same short names in different groups, variables declared before,
+    between or after sibling groups, names that quoting changes included.  Distinctness is on *stored* paths
+    (`distinctNodes`): `a.b` and `a%2Eb` in one group are the same stored name. -/
 theorem C11_addressable (pre : List (Str × Str)) (name : Str) (s : Spec)
     (hok : s.ok) (hres : refsResolve s) (hn : distinctNodes s) (hd : distinctDims s) :
     ∃ t, datasetTree (renderRoot pre name s) = .ok t ∧
-      ∀ pv ∈ specVars [] s, Forest.findVar (pv.1 ++ [pv.2.name]) t = some (expectVar pv.1 pv.2) :=
+      ∀ pv ∈ specVars [] s, Forest.findVar (nodePath pv) t = some (expectVar pv.1 pv.2) :=
   datasetTree_find pre name s hok hres hn hd
+
+/-- **… under the declared names and under the stored names**: `dataset["/p₁/…/pₖ"]` (`getitemPath`, the model of
+    `DatasetType._getitem_string` since fix 3e19517: every component is looked up under its quoted name) returns
+    the variable for *every* spelling `p₁ … pₖ` of its path whose components quote to the stored ones — the names
+    as the DMR declares them (`/g h/a.b`), the names as stored (`/g%20h/a%2Eb`, by idempotence), or any mix. -/
+theorem C11_addressable_any_spelling (pre : List (Str × Str)) (name : Str) (s : Spec)
+    (hok : s.ok) (hres : refsResolve s) (hn : distinctNodes s) (hd : distinctDims s) :
+    ∃ t, datasetTree (renderRoot pre name s) = .ok t ∧
+      ∀ pv ∈ specVars [] s, ∀ parts : List Str, (∀ q ∈ parts, segName q) → parts.map quoteName = nodePath pv →
+        getitemPath (pathStr parts) t = some (expectVar pv.1 pv.2) := by
+  obtain ⟨t, ht, hf⟩ := C11_addressable pre name s hok hres hn hd
+  refine ⟨t, ht, ?_⟩
+  intro pv hpv parts hs hq
+  rw [getitemPath_parts parts hs, hq]
+  exact hf pv hpv
+
+/-- the stored spelling is one of them -/
+theorem C11_addressable_stored (pre : List (Str × Str)) (name : Str) (s : Spec)
+    (hok : s.ok) (hres : refsResolve s) (hn : distinctNodes s) (hd : distinctDims s) :
+    ∃ t, datasetTree (renderRoot pre name s) = .ok t ∧
+      ∀ pv ∈ specVars [] s, getitemPath (pathStr (nodePath pv)) t = some (expectVar pv.1 pv.2) := by
+  obtain ⟨t, ht, hf⟩ := C11_addressable_any_spelling pre name s hok hres hn hd
+  refine ⟨t, ht, ?_⟩
+  intro pv hpv
+  obtain ⟨h1, h2, _⟩ := specVars_mem s hok [] hnilq pv hpv
+  apply hf pv hpv
+  · intro q hq
+    simp only [nodePath, List.mem_append, List.mem_singleton] at hq
+    rcases hq with m | rfl
+    · exact (h1 q m).1
+    · exact (goodName_qseg h2.2.1).1
+  · simp only [nodePath, List.map_append, List.map_cons, List.map_nil, quoteName_idem]
+    congr 1
+    conv => rhs; rw [← List.map_id pv.1]
+    apply List.map_congr_left
+    intro q hq
+    exact (h1 q hq).2.2.2
 
 /-- the parser's dtype string a served variable must come back with (the ten numeric types) -/
 def srvDtypeOf (kind : Char) (dtypeName : Str) : Str :=
@@ -139,6 +190,14 @@ example : SDim.names [.named "/x".toList 3, .anon 5, .named "/g/y".toList 2] = [
 example : parseVars (renderRoot [] "ds".toList demo) = .ok (expectVars demo) :=
   C11_parse [] _ demo demo_ok demo_refs (by unfold distinctVars; decide) (by unfold distinctDims; decide)
 example : distinctNodes demo := by unfold distinctNodes; decide
+-- names that quoting changes
+example : parseVars (renderRoot [] "ds".toList qdemo) = .ok (expectVars qdemo) :=
+  C11_parse [] _ qdemo qdemo_ok qdemo_refs (by unfold distinctVars; decide) (by unfold distinctDims; decide)
+example : distinctNodes qdemo := by unfold distinctNodes; decide
+example : (specVars [] qdemo).map nodePath
+    = [["t%5B0%5D".toList], ["g%20h".toList, "a%2Eb".toList], ["%C3%A9".toList]] := by decide
+/-- the declared spelling `/g h/a.b` of the second variable of `qdemo` quotes to its stored path -/
+example : ["g h".toList, "a.b".toList].map quoteName = ["g%20h".toList, "a%2Eb".toList] := by decide
 example : distinctVars demo ∧ distinctDims demo := by
   constructor
   · unfold distinctVars; decide
